@@ -248,7 +248,7 @@ def run_program(seed, tier):
     g = gen.Gen(seed, "C17", tier="quick", overrides={"fault_rate": 0.0, "wide_rate": 0.0})
     g.fault_rate = 0.0
     g.max_steps = min(g.max_steps, 16 + len(g.queue))
-    cfg = {"seed": seed, "contraction": g.contraction, "ops": g.ops, "mode": "forced", "lib_seed": seed % 1000 + 1}
+    cfg = {"seed": seed, "contraction": g.contraction, "ops": g.ops, "mode": "forced", "lib_seed": seed % 1000 + 1, "debuglog": g.debuglog}
     base = runner.execute_run(cfg, gen=g, keep_snapshots=True)
     cfg_json = dict(cfg)
     cfg_json["ops"] = dict(g.ops)
